@@ -113,6 +113,13 @@ pub struct SimCfg {
     /// Cluster of each slot (C16); all zero otherwise.
     pub cluster_of: [u8; MAX_SLOTS],
     pub cluster_ids: [String; 2],
+    /// The nodes' configuration lists a (never answering) seed.
+    #[serde(default)]
+    pub seeded: bool,
+    /// The harness keeps no receiver of the live-members watch channel between evaluations: it
+    /// fetches a new one after each evaluation (an application that subscribes late).
+    #[serde(default)]
+    pub no_persistent_watcher: bool,
     pub shuffle_seed: u64,
 }
 
@@ -158,7 +165,7 @@ struct SimNode {
     wid: WId,
     chitchat: Chitchat,
     calls: std::sync::Arc<std::sync::atomic::AtomicUsize>,
-    watcher: tokio::sync::watch::Receiver<BTreeMap<ChitchatId, NodeState>>,
+    watcher: Option<tokio::sync::watch::Receiver<BTreeMap<ChitchatId, NodeState>>>,
     _seed_tx: tokio::sync::watch::Sender<HashSet<std::net::SocketAddr>>,
     /// (live set with max versions) observed at the previous evaluation (C13)
     prev_eval: Option<BTreeMap<ChitchatId, u64>>,
@@ -230,6 +237,11 @@ pub struct World<'a> {
     /// last evaluation that classified the member dead.
     fresh_timing: BTreeMap<(usize, ChitchatId), (Option<u128>, Option<u64>, Option<u64>)>,
     ev_seq: u64,
+    /// Per (observer, member): smallest accepted gap (<= max_interval) between consecutive fresh
+    /// heartbeat observations since the member's sampling window was last emptied.
+    min_gap: BTreeMap<(usize, ChitchatId), u128>,
+    /// Per (observer, member): highest heartbeat value a processed digest has carried for it.
+    max_hb_received: BTreeMap<(usize, ChitchatId), u64>,
     /// copies that passed a delete (C02 non-triviality)
     passed_delete: BTreeSet<(usize, ChitchatId)>,
     /// (slot, member, key, version) -> virtual time at which this node first held that marked
@@ -289,6 +301,8 @@ impl<'a> World<'a> {
             fresh_since_creation: BTreeMap::new(),
             fresh_timing: BTreeMap::new(),
             ev_seq: 0,
+            min_gap: BTreeMap::new(),
+            max_hb_received: BTreeMap::new(),
             passed_delete: BTreeSet::new(),
             marked_since: BTreeMap::new(),
             catch_up_via_serde: false,
@@ -319,15 +333,16 @@ impl<'a> World<'a> {
         }
         let id = wid.to_real();
         let cluster = self.cfg.cluster_of[slot] as usize % 2;
-        let b = build_node(
+        let b = build_node_seeded(
             &id,
             &self.cfg.cluster_ids[cluster],
             Duration::from_millis(self.cfg.kv_grace_ms),
             &self.cfg.fd,
             self.cfg.callback,
             self.cfg.predicate,
+            self.cfg.seeded,
         );
-        let watcher = b.chitchat.live_nodes_watcher();
+        let watcher = if self.cfg.no_persistent_watcher { None } else { Some(b.chitchat.live_nodes_watcher()) };
         let hb = b.chitchat.node_state(&id).map(|ns| u64::from(ns.heartbeat())).unwrap_or(0);
         self.ledgers.insert(id.clone(), Ledger { heartbeat: hb, cluster: cluster as u8, ..Default::default() });
         self.nodes[slot] = Some(SimNode {
@@ -562,6 +577,7 @@ impl<'a> World<'a> {
         if !pre_known && node.chitchat.node_state(&member).is_some() {
             self.fresh_since_creation.insert((n, member.clone()), (0, 0));
             self.fresh_timing.remove(&(n, member.clone()));
+            self.min_gap.remove(&(n, member.clone()));
             if self.removed_hb.contains_key(&(n, member.clone())) && mon == Monitor::C12 {
                 return Err(fail(mon, "revived-by-catch-up", format!("n{n} recreated removed member {:?} through the catch-up entry point", member)).into());
             }
@@ -630,6 +646,8 @@ impl<'a> World<'a> {
         self.removed_hb.retain(|(s, _), _| *s != slot);
         self.fresh_since_creation.retain(|(s, _), _| *s != slot);
         self.fresh_timing.retain(|(s, _), _| *s != slot);
+        self.min_gap.retain(|(s, _), _| *s != slot);
+        self.max_hb_received.retain(|(s, _), _| *s != slot);
         self.passed_delete.retain(|(s, _)| *s != slot);
         self.marked_since.retain(|(s, _, _, _), _| *s != slot);
     }
@@ -988,6 +1006,21 @@ impl<'a> World<'a> {
             }
         }
 
+        // Heartbeat values this node has been told (same-cluster digests only: a foreign SYN is
+        // rejected before its digest is read).
+        let same_cluster = match &dg.model {
+            WMsg::Syn { cluster_id, .. } => cluster_id == &self.cfg.cluster_ids[my_cluster as usize],
+            _ => true,
+        };
+        if let (Some(d), true) = (digest, same_cluster) {
+            for nd in d {
+                let rid = nd.id.to_real();
+                if rid != self_id {
+                    let e = self.max_hb_received.entry((dst, rid)).or_insert(0);
+                    *e = (*e).max(nd.heartbeat);
+                }
+            }
+        }
         // C12: recreation rule.
         for id in post_copies.keys() {
             if !pre_members.contains(id) {
@@ -1005,6 +1038,7 @@ impl<'a> World<'a> {
                     }
                 }
                 self.fresh_timing.remove(&key);
+                self.min_gap.remove(&key);
                 self.fresh_since_creation.insert(key, (0, 0));
             }
         }
@@ -1027,6 +1061,14 @@ impl<'a> World<'a> {
                 let t = self.fresh_timing.entry((dst, id.clone())).or_insert((None, None, None));
                 if let Some(prev) = t.0 {
                     if self.now_ns - prev <= max_interval_ns {
+                        // (the very first heartbeat value of a member is stored but not reported to
+                        // the failure detector: its window gets an interval from the third
+                        // observation on)
+                        if e.1 >= 3 {
+                            let gap = self.now_ns - prev;
+                            let g = self.min_gap.entry((dst, id.clone())).or_insert(gap);
+                            *g = (*g).min(gap);
+                        }
                         t.1 = Some(self.ev_seq);
                     }
                 }
@@ -1291,7 +1333,9 @@ impl<'a> World<'a> {
         let node = self.nodes[slot].as_mut().unwrap();
         let pre_members: BTreeMap<ChitchatId, u64> = node.chitchat.node_states().iter().map(|(id, ns)| (id.clone(), u64::from(ns.heartbeat()))).collect();
         let mut early_rx = node.watcher.clone();
-        early_rx.borrow_and_update();
+        if let Some(rx) = early_rx.as_mut() {
+            rx.borrow_and_update();
+        }
         if let Err(p) = guard(|| node.chitchat.verif_update_nodes_liveness()) {
             return Err(self.panic_policy(p, "update_nodes_liveness"));
         }
@@ -1307,8 +1351,17 @@ impl<'a> World<'a> {
             if !members.contains(id) {
                 self.flags.member_removed = true;
                 self.removed_hb.insert((slot, id.clone()), *hb);
+                // "a heartbeat strictly higher than the one known at removal": what the node
+                // remembers must not be below a value it had already been told.
+                if mon == Monitor::C12 {
+                    let told = self.max_hb_received.get(&(slot, id.clone())).copied().unwrap_or(0);
+                    if *hb < told {
+                        return Err(fail(mon, "removal-memory-below-received-heartbeat", format!("n{slot} removed {:?} remembering heartbeat {hb} although a digest it processed earlier carried heartbeat {told} for that member: a survivor still advertising {told} would recreate it", id)).into());
+                    }
+                }
                 self.fresh_since_creation.remove(&(slot, id.clone()));
                 self.fresh_timing.remove(&(slot, id.clone()));
+                self.min_gap.remove(&(slot, id.clone()));
                 if mon == Monitor::C12 {
                     match self.dead_since.get(&(slot, id.clone())) {
                         Some(since) if self.now_ns - since >= grace_ns => {}
@@ -1330,6 +1383,21 @@ impl<'a> World<'a> {
         if mon == Monitor::C12 {
             if !members.contains(&self_id) {
                 return Err(fail(mon, "self-removed", format!("n{slot} removed itself")).into());
+            }
+            // The other direction of the dead-to-live path: a member with at least one accepted
+            // interval in its window whose last fresh heartbeat is recent enough (half of
+            // phi x min(smallest accepted gap, initial interval): the smoothed mean is at least
+            // that minimum) is live after this evaluation - in particular it is not removed.
+            let fdc = &self.cfg.fd;
+            for id in pre_members.keys() {
+                if *id == self_id {
+                    continue;
+                }
+                let (Some(g), Some((Some(last), _, _))) = (self.min_gap.get(&(slot, id.clone())), self.fresh_timing.get(&(slot, id.clone()))) else { continue };
+                let floor_ns = (*g).min(fdc.initial_interval_ms as u128 * 1_000_000) as f64;
+                if ((self.now_ns - last) as f64) <= 0.5 * fdc.phi * floor_ns && floor_ns > 0.0 && !live.contains(id) {
+                    return Err(fail(mon, "fresh-member-not-live", format!("after an evaluation on n{slot}, member {:?} is not live (still a member: {}) although its last fresh heartbeat is {} ms old and the smallest interval in its window is {} ms (phi threshold {}, initial interval {} ms)", id, members.contains(id), (self.now_ns - last) / 1_000_000, g / 1_000_000, fdc.phi, fdc.initial_interval_ms)).into());
+                }
             }
             for id in &members {
                 if *id == self_id {
@@ -1365,6 +1433,8 @@ impl<'a> World<'a> {
                     self.ev_seq += 1;
                     let seq = self.ev_seq;
                     self.fresh_timing.entry((slot, id.clone())).or_insert((None, None, None)).2 = Some(seq);
+                    // (an evaluation that finds the member dead empties its sampling window)
+                    self.min_gap.remove(&(slot, id.clone()));
                 }
             }
         }
@@ -1387,7 +1457,11 @@ impl<'a> World<'a> {
                 .filter(|(_, ns)| eval_predicate(self.cfg.predicate, ns))
                 .map(|(id, ns)| (id.clone(), ns.max_version()))
                 .collect();
-            let published: BTreeMap<ChitchatId, u64> = node.watcher.borrow().iter().map(|(id, ns)| (id.clone(), ns.max_version())).collect();
+            let published: BTreeMap<ChitchatId, u64> = match &node.watcher {
+                Some(w) => w.borrow().iter().map(|(id, ns)| (id.clone(), ns.max_version())).collect(),
+                // a subscriber arriving after the evaluation
+                None => node.chitchat.live_nodes_watcher().borrow().iter().map(|(id, ns)| (id.clone(), ns.max_version())).collect(),
+            };
             if published != expected {
                 let fmt = |m: &BTreeMap<ChitchatId, u64>| m.iter().map(|(id, v)| format!("{}@{v}", id.node_id)).collect::<Vec<_>>().join(",");
                 return Err(fail(mon, "watch-channel-stale", format!("after an evaluation on n{slot} the watch channel lists [{}] but the live members satisfying the predicate are [{}]", fmt(&published), fmt(&expected))).into());
@@ -1409,7 +1483,7 @@ impl<'a> World<'a> {
                     _ => return Err(fail(mon, "watch-stream-empty", format!("live_nodes_watch_stream() on n{slot} does not yield the current value")).into()),
                 }
             }
-            if changed && node.prev_eval.is_some() && !early_rx.has_changed().unwrap_or(false) {
+            if changed && node.prev_eval.is_some() && early_rx.as_ref().map(|rx| !rx.has_changed().unwrap_or(false)).unwrap_or(false) {
                 return Err(fail(mon, "no-publication", format!("live set / max versions changed on n{slot} but nothing was published")).into());
             }
         }
@@ -2141,6 +2215,9 @@ fn cfg_strategy(profile: Profile, mon: Monitor) -> BoxedStrategy<SimCfg> {
                 cluster_of,
                 cluster_ids: [id0, id1],
                 shuffle_seed,
+                // derived from the shuffle seed (keeps the strategy tuple within proptest's arity)
+                seeded: shuffle_seed % 3 == 0,
+                no_persistent_watcher: (shuffle_seed >> 8) % 3 == 0,
             }
         })
         .boxed()
